@@ -66,25 +66,30 @@ def Chunked.beginChunk (cr : Chunked) (b : Bufio) : Chunked × Bufio :=
 /-- `chunkHeaderAvailable`: a '\n' among the buffered bytes. -/
 def chunkHeaderAvailable (b : Bufio) : Bool := (indexOf 10 b.buf).isSome
 
+/-- The bytes a `Read` has copied so far, kept as the list of copied pieces, newest first
+(so that appending a piece is O(1)). -/
+def piecesBytes (accR : List Bytes) : Bytes := accR.reverse.flatten
+
 /-- The `for cr.err == nil` loop of `chunkedReader.Read`; `k` = free space left in the
-caller's buffer, `acc` = bytes already copied (`n > 0` ⇔ `acc ≠ []`). -/
-def Chunked.readLoop : Nat → Chunked → Bufio → Nat → Bytes → (Bytes × Chunked) × Bufio
-  | 0, cr, b, _, acc => ((acc, { cr with err := some .stuck }), b)
-  | fuel + 1, cr, b, k, acc =>
-    if cr.err.isSome then ((acc, cr), b) else
+caller's buffer, `accR` = pieces already copied (Go's `n > 0` ⇔ `got > 0`, `got` = their
+total length). -/
+def Chunked.readLoop : Nat → Chunked → Bufio → Nat → Nat → List Bytes → (List Bytes × Chunked) × Bufio
+  | 0, cr, b, _, _, accR => ((accR, { cr with err := some .stuck }), b)
+  | fuel + 1, cr, b, k, got, accR =>
+    if cr.err.isSome then ((accR, cr), b) else
     if cr.checkEnd then
-      if acc.length > 0 ∧ b.buffered < 2 then ((acc, cr), b) else
+      if got > 0 ∧ b.buffered < 2 then ((accR, cr), b) else
       match b.readFull 3 2 [] with
       | ((d, none), b') =>
-        if d == [13, 10] then Chunked.readLoop fuel { cr with checkEnd := false } b' k acc
-        else ((acc, { cr with err := some .malformedChunk }), b')
+        if d == [13, 10] then Chunked.readLoop fuel { cr with checkEnd := false } b' k got accR
+        else ((accR, { cr with err := some .malformedChunk }), b')
       | ((_, some e), b') =>
-        ((acc, { cr with err := some (if e == .eof then .unexpectedEOF else e) }), b')
+        ((accR, { cr with err := some (if e == .eof then .unexpectedEOF else e) }), b')
     else if cr.n = 0 then
-      if acc.length > 0 ∧ !chunkHeaderAvailable b then ((acc, cr), b) else
+      if got > 0 ∧ !chunkHeaderAvailable b then ((accR, cr), b) else
       let (cr', b') := cr.beginChunk b
-      Chunked.readLoop fuel cr' b' k acc
-    else if k = 0 then ((acc, cr), b)
+      Chunked.readLoop fuel cr' b' k got accR
+    else if k = 0 then ((accR, cr), b)
     else
       match b.read (min k cr.n) with
       | ((d, e), b') =>
@@ -94,7 +99,7 @@ def Chunked.readLoop : Nat → Chunked → Bufio → Nat → Bytes → (Bytes ×
           | none => { cr with n := n', checkEnd := n' = 0 }
           | some .eof => { cr with n := n', err := some .unexpectedEOF }
           | some e => { cr with n := n', err := some e }
-        Chunked.readLoop fuel cr' b' (k - d.length) (acc ++ d)
+        Chunked.readLoop fuel cr' b' (k - d.length) (got + d.length) (d :: accR)
 
 /-- Enough fuel for one `Read(p)`, `len(p) = k`: every data iteration copies at least one byte
 into `p` (or ends the loop) and at most two framing iterations (chunk footer, chunk header)
@@ -102,8 +107,8 @@ run between two data iterations. -/
 def Chunked.fuel (k : Nat) : Nat := 3 * k + 8
 
 def Chunked.read (cr : Chunked) (b : Bufio) (k : Nat) : (Bytes × Option IOErr) × (Chunked × Bufio) :=
-  let ((d, cr'), b') := Chunked.readLoop (Chunked.fuel k) cr b k []
-  ((d, cr'.err), (cr', b'))
+  let ((accR, cr'), b') := Chunked.readLoop (Chunked.fuel k) cr b k 0 []
+  ((piecesBytes accR, cr'.err), (cr', b'))
 
 /-! ### `transfer.go` `body` -/
 
